@@ -146,3 +146,54 @@ Proof.
   - injection H as <-. split; [exact E0|]. split; [reflexivity|]. exists 0.
     split; [lia|]. split; [ring|]. split; [ring|]. split; [reflexivity|]. split; [intros Hc; lia|intros j Hj; lia].
 Qed.
+
+(* ------------------------------------------------------------------ the loop that extends a range over full words, every W
+   (round 5).  From an iterator standing on a word whose remaining bits all belong to the current range, the loop walks over
+   k >= 0 following words that are all ones (after the xor mask) and stops in exactly one of three ways:
+     (a) the hint is reached: the range ends at the end of the last full word (clamped to end);
+     (b) the data ends: same range end, the iterator index is moved past the end so that the next call returns false;
+     (c) the next word is not full: the range ends at its first zero bit j (clamped), and the iterator keeps that word with
+         bits [0, j) cleared (word_run above says what the next call does with it). *)
+Theorem ri_extend_spec W (b : bool) ws : forall fuel it rstart rend hint it' rend',
+  ri_extend fuel W b ws it rstart rend hint = (it', rend') ->
+  ri_end it' = ri_end it /\
+  exists k, 0 <= k /\
+    (forall j, 0 < j <= k -> mword W b ws (ri_ptr it + j) = Z.ones W /\ ri_idx it + W * j < ri_end it) /\
+    let rk := if k =? 0 then rend else Z.min (ri_idx it + W * k + W) (ri_end it) in
+    ((it' = (if k =? 0 then it else mkri (ri_ptr it + k) (ri_idx it + W * k) (ri_end it) 0) /\ rend' = rk)
+     \/ (ri_idx it + W * k + W >= ri_end it /\
+         it' = mkri (ri_ptr it + k) (ri_idx it + W * k + W) (ri_end it) (if k =? 0 then ri_word it else 0) /\ rend' = rk)
+     \/ (ri_idx it + W * k + W < ri_end it /\ mword W b ws (ri_ptr it + k + 1) <> Z.ones W /\
+         let bw := mword W b ws (ri_ptr it + k + 1) in let j := ctz (wlnot W bw) in
+         it' = mkri (ri_ptr it + k + 1) (ri_idx it + W * k + W) (ri_end it) (Z.lxor bw (wlnot W (shl_ones W j))) /\
+         rend' = Z.min (ri_idx it + W * k + W + j) (ri_end it))).
+Proof.
+  induction fuel as [|f IH]; intros it rstart rend hint it' rend' H; cbn [ri_extend] in H.
+  - injection H as <- <-. split; [reflexivity|]. exists 0. split; [lia|]. split; [intros j Hj; lia|]. left. split; reflexivity.
+  - destruct ((rend - rstart) mod 2 ^ 64 <? hint).
+    2:{ injection H as <- <-. split; [reflexivity|]. exists 0. split; [lia|]. split; [intros j Hj; lia|]. left. split; reflexivity. }
+    destruct (Z.geb_spec (ri_idx it + W) (ri_end it)) as [Hge|Hlt].
+    + injection H as <- <-. split; [reflexivity|]. exists 0. split; [lia|]. split; [intros j Hj; lia|]. right. left.
+      cbn [Z.eqb ri_ptr ri_idx ri_end]. split; [lia|]. split; [f_equal; lia|reflexivity].
+    + fold (mword W b ws (ri_ptr it + 1)) in H. destruct (Z.eqb_spec (mword W b ws (ri_ptr it + 1)) (Z.ones W)) as [E1|E1]; cbn [negb] in H.
+      * set (it1 := mkri (ri_ptr it + 1) (ri_idx it + W) (ri_end it) 0) in *.
+        destruct (IH it1 rstart _ hint it' rend' H) as (Ee & k1 & K0 & KF & KD). cbn [it1 ri_ptr ri_idx ri_end ri_word] in *.
+        split; [exact Ee|]. exists (k1 + 1). split; [lia|]. split.
+        { intros j Hj. destruct (Z.eq_dec j 1) as [->|Hne]; [split; [exact E1|lia]|].
+          destruct (KF (j - 1) ltac:(lia)) as [A B]. split; [rewrite <- A; f_equal; ring|lia]. }
+        destruct (Z.eqb_spec (k1 + 1) 0) as [Hc|_]; [lia|]. cbn zeta in KD |- *.
+        replace (ri_ptr it + (k1 + 1)) with (ri_ptr it + 1 + k1) by ring.
+        replace (ri_ptr it + (k1 + 1) + 1) with (ri_ptr it + 1 + k1 + 1) by ring.
+        replace (ri_idx it + W * (k1 + 1)) with (ri_idx it + W + W * k1) by ring.
+        destruct (Z.eqb_spec k1 0) as [K|K].
+        { subst k1. rewrite !Z.mul_0_r, !Z.add_0_r in *. destruct KD as [(A & B)|[(A & B & C)|(A & B & C & D)]].
+          - left. split; [exact A|exact B].
+          - right. left. split; [exact A|]. split; [exact B|exact C].
+          - right. right. split; [exact A|]. split; [exact B|]. split; [exact C|exact D]. }
+        { destruct KD as [(A & B)|[(A & B & C)|(A & B & C & D)]].
+          - left. split; [exact A|exact B].
+          - right. left. split; [exact A|]. split; [exact B|exact C].
+          - right. right. split; [exact A|]. split; [exact B|]. split; [exact C|exact D]. }
+      * injection H as <- <-. split; [reflexivity|]. exists 0. split; [lia|]. split; [intros j Hj; lia|]. right. right.
+        cbn [Z.eqb ri_ptr ri_idx ri_end]. rewrite !Z.mul_0_r, !Z.add_0_r. split; [lia|]. split; [exact E1|]. split; reflexivity.
+Qed.
